@@ -3288,7 +3288,23 @@ impl VmGreenThread {
             freed: self.verif.freed_in_cycle,
             live: self.heap_list.len(),
         });
-        if !crate::verif::quarantine_on() || !crate::verif::selfcheck_due() {
+        if !crate::verif::selfcheck_due() {
+            return;
+        }
+        // probe: the size the pacing heuristic works with is the sum of the sizes of the objects
+        // on the heap list (drift in either direction defeats the heuristic)
+        let actual: usize = self
+            .heap_list
+            .iter()
+            .map(|p| unsafe { &**p }.nbytes())
+            .sum();
+        if actual != self.heap_size {
+            crate::verif::emit(crate::verif::Event::Probe {
+                thread: self.id,
+                name: "heap_accounting_drift",
+            });
+        }
+        if !crate::verif::quarantine_on() {
             return;
         }
         for addr in Self::verif_reachable(self.verif_roots()) {
